@@ -12,6 +12,9 @@ Import ListNotations.
 Open Scope Z_scope.
 Ltac Zify.zify_post_hook ::= Z.div_mod_to_equations.
 
+(* an equation kept out of lia's sight (lia pre-processes every hypothesis that mentions /) *)
+Definition hide (P : Prop) : Prop := P.
+
 Definition of_piece (p : piece) : tensor := mk_tensor (poff p) (plen p) (pshape p).
 Definition flat (t : tensor) : Prop := t_shape t = [t_len t].
 Definition wf_tensor (t : tensor) : Prop := fold_right Z.mul 1 (t_shape t) = t_len t.
@@ -49,35 +52,32 @@ Proof.
   destruct (Z.eqb_spec e s); [contradiction|reflexivity].
 Qed.
 
-(* one unfolding of the recursive helper `block_within_tensor_shard_recovery`, written once; each copy's generated
-   Fixpoint is shown to satisfy it (by computation) *)
-Definition step (self : list Z -> tensor -> Z -> Z -> Z -> result (list tensor))
-                (os : list Z) (t : tensor) (d s e : Z) : result (list tensor) :=
-  if e - s =? t_len t then
-    if e =? s then Ret [] else
-    if d =? py_len os - 1 then Ret [t] else
-    let R := py_prod (py_slice_from os (d + 1)) in
-    bind (py_floordiv (s + R - 1) R) (fun q1 =>
-    bind (py_floordiv e R) (fun q2 =>
-    let cs := q1 * R in
-    let ce := q2 * R in
-    if cs <? ce then
-      bind (self os (t_narrow0 t 0 (cs - s)) (d + 1) s cs) (fun l =>
-      bind (self os (t_narrow0 t (ce - s) (e - ce)) (d + 1) ce e) (fun r =>
-      Ret ((l ++ [t_view (t_narrow0 t (cs - s) (ce - cs)) ([-1] ++ py_slice_from os (d + 1))]) ++ r)))
-    else if ce <? cs then self os t (d + 1) s e
-    else
-      bind (self os (t_narrow0 t 0 (cs - s)) (d + 1) s cs) (fun l =>
-      bind (self os (t_narrow0 t (ce - s) (e - ce)) (d + 1) ce e) (fun r =>
-      Ret ((l ++ []) ++ r)))))
-  else Raise AssertionError 0.
-
+(* What one call of the recursive helper `block_within_tensor_shard_recovery` does, stated SEMANTICALLY (by cases on the
+   arithmetic facts, with the results of the nested calls as premises) so that it does not depend on how the code arranges
+   its tests, names and list expressions.  Each copy's generated Fixpoint is shown to satisfy these five facts by the
+   tactic `one_step`; the induction over the shape suffix is done once, from the facts alone. *)
 Section Copy.
   Variable f : nat -> list Z -> tensor -> Z -> Z -> Z -> result (list tensor).
-  Hypothesis f_S : forall fuel os t d s e, f (S fuel) os t d s e = step (f fuel) os t d s e.
+  Variable top : tensor -> list Z -> Z -> Z -> result (list tensor).
 
-  Lemma f_empty fuel os t d s : t_len t = 0 -> f (S fuel) os t d s s = Ret [].
-  Proof. intro H. rewrite f_S. unfold step. rewrite H, Z.sub_diag. cbn [Z.eqb]. rewrite Z.eqb_refl. reflexivity. Qed.
+  (* empty range *)
+  Hypothesis f_empty : forall fuel os t d s, t_len t = 0 -> f (S fuel) os t d s s = Ret [].
+  (* last dimension: the block itself *)
+  Hypothesis f_last : forall fuel os t d s e, e - s = t_len t -> e <> s -> d = py_len os - 1 -> f (S fuel) os t d s e = Ret [t].
+  (* no complete slice of this dimension inside [s, e): go one dimension deeper on the same range *)
+  Hypothesis f_skip : forall fuel os t d s e R cs ce, e - s = t_len t -> e <> s -> d <> py_len os - 1 ->
+    R = py_prod (py_slice_from os (d + 1)) -> R <> 0 -> cs = (s + R - 1) / R * R -> ce = e / R * R -> ce < cs ->
+    f (S fuel) os t d s e = f fuel os t (d + 1) s e.
+  (* otherwise: left remainder, the (possibly empty) centre block of complete slices, right remainder *)
+  Hypothesis f_split : forall fuel os t d s e R cs ce L Rr, e - s = t_len t -> e <> s -> d <> py_len os - 1 ->
+    R = py_prod (py_slice_from os (d + 1)) -> R <> 0 -> cs = (s + R - 1) / R * R -> ce = e / R * R -> cs <= ce ->
+    f fuel os (t_narrow0 t 0 (cs - s)) (d + 1) s cs = Ret L ->
+    f fuel os (t_narrow0 t (ce - s) (e - ce)) (d + 1) ce e = Ret Rr ->
+    f (S fuel) os t d s e
+    = Ret (L ++ (if cs <? ce then [t_view (t_narrow0 t (cs - s) (ce - cs)) (-1 :: py_slice_from os (d + 1))] else []) ++ Rr).
+  (* the public function *)
+  Hypothesis top_nonflat : forall t os s e, py_len (t_shape t) <> 1 -> top t os s e = Raise ValueError 0.
+  Hypothesis top_flat : forall t os s e, py_len (t_shape t) = 1 -> top t os s e = f (S (S (length os))) os t 0 s e.
 
   Lemma f_eq_rec os : allpos os -> forall sh n fuel t s e,
     (n <= length os)%nat -> skipn n os = sh -> (length sh + 2 <= fuel)%nat ->
@@ -85,63 +85,62 @@ Section Copy.
     f fuel os t (Z.of_nat n) s e = Ret (map of_piece (rec sh (t_off t) s e)).
   Proof.
     intros Hpos. induction sh as [|x sh IH]; intros n fuel t s e Hn Hsk Hfuel Hse Hlen Hflat;
-      (destruct fuel as [|fuel]; [cbn [length] in Hfuel; lia|]); rewrite f_S; unfold step;
-      rewrite Hlen, Z.eqb_refl;
-      (destruct (Z.eqb_spec e s) as [->|Hne]; [rewrite rec_empty; reflexivity|]);
+      (destruct fuel as [|fuel]; [cbn [length] in Hfuel; lia|]);
+      (destruct (Z.eq_dec e s) as [->|Hne]; [rewrite rec_empty; apply f_empty; lia|]);
       assert (Hlos : length os = (n + length (skipn n os))%nat) by (rewrite skipn_length; lia);
       rewrite Hsk in Hlos; cbn [length] in Hlos, Hfuel;
-      replace (Z.of_nat n + 1) with (Z.of_nat (S n)) by lia; rewrite py_slice_from_nat, skipn_S_tl, Hsk; cbn [tl].
+      assert (Hsl : py_slice_from os (Z.of_nat n + 1) = tl (skipn n os))
+        by (replace (Z.of_nat n + 1) with (Z.of_nat (S n)) by lia; rewrite py_slice_from_nat; apply skipn_S_tl);
+      rewrite Hsk in Hsl; cbn [tl] in Hsl.
     - (* order 0: dimension = len(shape), remaining_size = prod(()) = 1, the centre block is everything *)
-      destruct (Z.eqb_spec (Z.of_nat n) (py_len os - 1)) as [E|_]; [unfold py_len in E; lia|].
-      cbv zeta. rewrite py_prod_fold_right. cbn [fold_right].
-      rewrite !py_floordiv_nz by lia. rewrite !bind_ret, !Z.div_1_r.
-      replace ((s + 1 - 1) * 1) with s by lia. replace (e * 1) with e by lia.
-      destruct (Z.ltb_spec s e) as [_|?]; [|lia].
       destruct fuel as [|fuel]; [lia|].
-      rewrite !narrow_flat by assumption.
-      rewrite !f_empty by (cbn [t_len]; lia). rewrite !bind_ret. cbn [rec app map].
-      destruct (Z.eqb_spec e s); [lia|]. cbn [map]. unfold of_piece, t_view. cbn [poff plen pshape t_off t_len t_shape filter map fold_right].
-      rewrite Z.eqb_refl. cbn [negb filter fold_right]. rewrite Z.div_1_r, Z.sub_diag, Z.add_0_r. reflexivity.
+      rewrite (f_split (S fuel) os t (Z.of_nat n) s e 1 s e [] []); try (unfold py_len; lia).
+      + destruct (Z.ltb_spec s e); [|lia]. cbn [rec app map]. destruct (Z.eqb_spec e s); [lia|]. cbn [map].
+        rewrite narrow_flat by assumption. rewrite Hsl. unfold of_piece, t_view.
+        cbn [poff plen pshape t_off t_len t_shape filter map fold_right]. rewrite Z.eqb_refl. cbn [negb filter fold_right].
+        rewrite Z.div_1_r, Z.sub_diag, Z.add_0_r. reflexivity.
+      + rewrite Hsl, py_prod_fold_right. reflexivity.
+      + apply f_empty. rewrite narrow_flat by assumption. cbn [t_len]. lia.
+      + apply f_empty. rewrite narrow_flat by assumption. cbn [t_len]. lia.
     - destruct sh as [|y sh]; cbn [length] in Hlos, Hfuel.
       + (* last dimension: the block itself *)
-        destruct (Z.eqb_spec (Z.of_nat n) (py_len os - 1)) as [_|E]; [|unfold py_len in E; lia].
+        rewrite f_last by (unfold py_len; lia).
         cbn [rec]. destruct (Z.eqb_spec e s); [lia|]. cbn [map]. unfold of_piece. cbn [poff plen pshape].
         destruct t as [o l shp]. unfold flat in Hflat. cbn [t_off t_len t_shape] in *. subst. reflexivity.
-      + destruct (Z.eqb_spec (Z.of_nat n) (py_len os - 1)) as [E|_]; [unfold py_len in E; lia|].
-        assert (Hpos' : allpos (y :: sh)).
+      + assert (Hpos' : allpos (y :: sh)).
         { pose proof (allpos_skipn n os Hpos) as H. rewrite Hsk in H. inversion H; assumption. }
         pose proof (prodl_pos _ Hpos') as HR.
-        cbv zeta. rewrite py_prod_fold_right. fold (prodl (y :: sh)).
         set (R := prodl (y :: sh)) in *.
-        rewrite !py_floordiv_nz by lia. rewrite !bind_ret.
-        set (cs := (s + R - 1) / R * R). set (ce := e / R * R).
-        assert (Hcs : s <= cs /\ cs < s + R) by (subst cs; lia).
-        assert (Hce : ce <= e /\ e - R < ce) by (subst ce; lia).
+        assert (HRp : R = py_prod (py_slice_from os (Z.of_nat n + 1))) by (rewrite Hsl, py_prod_fold_right; reflexivity).
+        rewrite (rec_cons2 x y sh _ s e Hne). unfold rec_step. fold R. cbv zeta.
+        remember ((s + R - 1) / R * R) as cs eqn:Ecs. remember (e / R * R) as ce eqn:Ece.
+        assert (Hcs : s <= cs /\ cs < s + R) by (rewrite Ecs; lia).
+        assert (Hce : ce <= e /\ e - R < ce) by (rewrite Ece; lia).
+        change (hide (cs = (s + R - 1) / R * R)) in Ecs. change (hide (ce = e / R * R)) in Ece.
         assert (Hsk' : skipn (S n) os = y :: sh) by (rewrite skipn_S_tl, Hsk; reflexivity).
         assert (Hn' : (S n <= length os)%nat) by lia.
-        rewrite (rec_cons2 x y sh _ s e Hne). unfold rec_step. fold R. fold cs. fold ce. cbv zeta.
-        rewrite !narrow_flat by assumption.
-        replace (Z.of_nat n + 1) with (Z.of_nat (S n)) by lia.
-        destruct (Z.ltb_spec cs ce) as [Hlt|Hge]; [|destruct (Z.ltb_spec ce cs) as [Hlt'|Hge']].
-        * rewrite (IH (S n) fuel _ s cs Hn' Hsk') by (cbn [length t_len] in *; unfold flat; cbn [t_len t_shape]; try reflexivity; lia).
-          rewrite bind_ret.
-          rewrite (IH (S n) fuel _ ce e Hn' Hsk') by (cbn [length t_len] in *; unfold flat; cbn [t_len t_shape]; try reflexivity; lia).
-          rewrite bind_ret. cbn [t_off]. rewrite Z.add_0_r, !map_app. cbn [map app].
-          rewrite <- app_assoc. cbn [app]. do 3 f_equal.
-          unfold of_piece, t_view. cbn [poff plen pshape t_off t_len t_shape app].
-          rewrite (view_infer (ce - cs) (y :: sh) Hpos'). reflexivity.
-        * apply (IH (S n) fuel t s e Hn' Hsk'); try assumption. cbn [length] in *. lia.
-        * assert (cs = ce) by lia.
-          rewrite (IH (S n) fuel _ s cs Hn' Hsk') by (cbn [length t_len] in *; unfold flat; cbn [t_len t_shape]; try reflexivity; lia).
-          rewrite bind_ret.
-          rewrite (IH (S n) fuel _ ce e Hn' Hsk') by (cbn [length t_len] in *; unfold flat; cbn [t_len t_shape]; try reflexivity; lia).
-          rewrite bind_ret. cbn [t_off]. rewrite Z.add_0_r, app_nil_r, map_app. reflexivity.
+        assert (Hd : Z.of_nat n + 1 = Z.of_nat (S n)) by lia.
+        destruct (Z.ltb_spec ce cs) as [Hlt|Hge].
+        * (* ce < cs *)
+          rewrite (f_skip fuel os t (Z.of_nat n) s e R cs ce) by (try exact Ecs; try exact Ece; try assumption; unfold py_len; lia).
+          destruct (Z.ltb_spec cs ce); [lia|]. rewrite Hd.
+          apply (IH (S n) fuel t s e Hn' Hsk'); try assumption. cbn [length]. lia.
+        * pose proof (narrow_flat t 0 (cs - s) Hflat) as HnL. pose proof (narrow_flat t (ce - s) (e - ce) Hflat) as HnR.
+          rewrite (f_split fuel os t (Z.of_nat n) s e R cs ce
+                     (map of_piece (rec (y :: sh) (t_off t) s cs)) (map of_piece (rec (y :: sh) (t_off t + (ce - s)) ce e)));
+            try exact Ecs; try exact Ece; try assumption; try (unfold py_len; lia).
+          -- destruct (Z.ltb_spec cs ce) as [Hlt|Hge'].
+             ++ rewrite !map_app. cbn [map]. do 3 f_equal. rewrite narrow_flat by assumption. rewrite Hsl. unfold of_piece, t_view.
+                cbn [poff plen pshape t_off t_len t_shape]. rewrite (view_infer (ce - cs) (y :: sh) Hpos'). reflexivity.
+             ++ destruct (Z.ltb_spec ce cs); [lia|]. rewrite map_app. reflexivity.
+          -- rewrite Hd, HnL, (IH (S n) fuel _ s cs Hn' Hsk') by (cbn [length t_len] in *; unfold flat; cbn [t_len t_shape]; try reflexivity; lia).
+             cbn [t_off]. rewrite Z.add_0_r. reflexivity.
+          -- rewrite Hd, HnR, (IH (S n) fuel _ ce e Hn' Hsk') by (cbn [length t_len] in *; unfold flat; cbn [t_len t_shape]; try reflexivity; lia).
+             reflexivity.
   Qed.
 
   (* the public function: rejects non-flat shards, otherwise the model's pieces *)
-  Lemma split_eq_model (top : tensor -> list Z -> Z -> Z -> result (list tensor)) :
-    (forall t os s e, top t os s e = if negb (py_len (t_shape t) =? 1) then Raise ValueError 0
-                                     else f (S (S (length os))) os t 0 s e) ->
+  Lemma split_eq_model :
     forall t shape s e, allpos shape -> s <= e -> wf_tensor t -> t_len t = e - s -> t_off t = 0 ->
     top t shape s e
     = match split_tensor_block_recovery (py_len (t_shape t)) shape s e with
@@ -149,8 +148,9 @@ Section Copy.
       | RaiseValueError => Raise ValueError 0
       end.
   Proof.
-    intros Htop t shape s e Hpos Hse Hwf Hlen Hoff. rewrite Htop. unfold split_tensor_block_recovery.
-    destruct (Z.eqb_spec (py_len (t_shape t)) 1) as [E|E]; cbn [negb]; [|reflexivity].
+    intros t shape s e Hpos Hse Hwf Hlen Hoff. unfold split_tensor_block_recovery.
+    destruct (Z.eqb_spec (py_len (t_shape t)) 1) as [E|E]; [|apply top_nonflat; assumption].
+    rewrite top_flat by assumption.
     assert (Hflat : flat t).
     { unfold flat, wf_tensor, py_len in *. destruct (t_shape t) as [|a [|b l]]; cbn [length] in E; try lia.
       cbn [fold_right] in Hwf. f_equal. lia. }
@@ -158,6 +158,17 @@ Section Copy.
     apply (f_eq_rec shape Hpos shape 0%nat); try assumption; try reflexivity; cbn [length]; lia.
   Qed.
 End Copy.
+
+(* a generated Fixpoint satisfies one of the facts above: unfold one level (`unf`), name prod(shape[d+1:]) and the two rounded
+   indices, decide every comparison, use the premises about the nested calls, and normalise the list expression *)
+Ltac one_step unf :=
+  intros; unf; cbv zeta;
+  repeat match goal with H : ?R = py_prod _ |- _ => rewrite <- H end;
+  rewrite ?py_floordiv_nz by assumption; cbv zeta; rewrite ?bind_ret;
+  repeat match goal with H : ?c = _ / _ * _ |- _ => rewrite <- H; clear H end;
+  cmp_cases; cbn [negb]; try (exfalso; lia);
+  repeat match goal with H : _ = Ret _ |- _ => rewrite H end;
+  rewrite ?bind_ret; cbn [app]; rewrite ?app_nil_r, <- ?app_assoc; cbn [app]; reflexivity.
 
 Theorem gen_fsdp_split_tensor_block_recovery_eq_model :
   forall t shape s e, allpos shape -> s <= e -> wf_tensor t -> t_len t = e - s -> t_off t = 0 ->
@@ -167,7 +178,10 @@ Theorem gen_fsdp_split_tensor_block_recovery_eq_model :
     | RaiseValueError => Raise ValueError 0
     end.
 Proof.
-  apply (split_eq_model GenC15.fsdp_block_within_tensor_shard_recovery); intros; reflexivity.
+  apply (split_eq_model GenC15.fsdp_block_within_tensor_shard_recovery);
+    [ one_step ltac:(cbn [GenC15.fsdp_block_within_tensor_shard_recovery]) ..
+    | one_step ltac:(unfold GenC15.fsdp_split_tensor_block_recovery)
+    | one_step ltac:(unfold GenC15.fsdp_split_tensor_block_recovery) ].
 Qed.
 Print Assumptions gen_fsdp_split_tensor_block_recovery_eq_model.
 
@@ -179,6 +193,9 @@ Theorem gen_hsdp_split_tensor_block_recovery_eq_model :
     | RaiseValueError => Raise ValueError 0
     end.
 Proof.
-  apply (split_eq_model GenC15.hsdp_block_within_tensor_shard_recovery); intros; reflexivity.
+  apply (split_eq_model GenC15.hsdp_block_within_tensor_shard_recovery);
+    [ one_step ltac:(cbn [GenC15.hsdp_block_within_tensor_shard_recovery]) ..
+    | one_step ltac:(unfold GenC15.hsdp_split_tensor_block_recovery)
+    | one_step ltac:(unfold GenC15.hsdp_split_tensor_block_recovery) ].
 Qed.
 Print Assumptions gen_hsdp_split_tensor_block_recovery_eq_model.
